@@ -10,6 +10,10 @@
         pub fn verif_label_insert(m: &mut std::collections::HashMap<String, expr::Value>, key: String, value: expr::Value)
             ensures forall|k: Seq<char>| #[trigger] label_lookup(final(m), k) == (if k == key@ { Some(value) } else { label_lookup(old(m), k) })
         { unimplemented!() }
+        #[verifier::external_body]
+        pub fn verif_label_new() -> (r: std::collections::HashMap<String, expr::Value>)
+            ensures forall|k: Seq<char>| (#[trigger] label_lookup(&r, k)) is None
+        { unimplemented!() }
         /// R31 helper: `MAP.iter()` as a vector of its entries (order left unspecified)
         #[verifier::external_body]
         pub fn verif_label_entries<'a>(m: &'a std::collections::HashMap<String, expr::Value>) -> Vec<(&'a String, &'a expr::Value)>
